@@ -14,6 +14,8 @@ ALL_PRODS = ['name', 'num', 'str', 're', 'grp', 'field', 'idx', 'call', 'u-', 'u
              'fgetv', 'post++', 'post--', 'pre++', 'pre--', 'get', 'getv', '||', '&&', '~', '!~', '<', '<=', '!=', '==', '>',
              '>=', 'cat', '+', '-', '*', '/', '%', '^', '=', '+=', '?:', 'lfield', 'lidx']
 MORE_ASG = ['-=', '*=', '/=', '%=', '^=']
+# the productions whose spellings can fuse into other tokens when they meet
+SIGN_PRODS = ['name', 'num', 'field', 'u-', 'u+', 'u!', 'pre++', 'pre--', 'post++', 'post--', '^', '-', '+']
 
 
 def tla_set(xs):
@@ -86,6 +88,9 @@ def run(ctx):
         ctx.tlc('Gen_Grammar', sim, capture='cases.ndjson', simulate=12000, depth=30, workers=4, timeout=900)
         ctx.cov['exhaustive'] = True
         mincases = 300000
+    gsign = ctx.cfg('Gen_Grammar', name='Gen_Grammar_sign', constants={
+        'MaxOps': 3 if q else 4, 'MaxOdd': 0, 'Prods': tla_set(SIGN_PRODS), 'Ctxs': '{"stmt", "print", "cond"}', 'OddCtxs': '{"stmt"}'})
+    ctx.tlc('Gen_Grammar', gsign, capture='cases.ndjson', timeout=1500, heap='8g')
     # a unary operator directly after ^ * / % + -: outside the strict parser's language, but the table (unary binds looser than ^,
     # tighter than * / % + -) still prescribes the tree; Gen_GrammarExtra checks each prescribed tree with the spec's parser
     gx = ctx.cfg('Gen_GrammarExtra', constants={'Ctxs': '{"stmt", "print", "pat", "cond"}'})
